@@ -281,3 +281,154 @@ Example gt_example_text :
   GT2time_frac (map Z.of_nat [50;48;50;51;49;49;49;52;50;50;49;51;50;48;46;49;50;51;90]%nat) 0
   = GtOk 1700000000 123 3.
 Proof. vm_compute. split; reflexivity. Qed.
+
+(* ------------------------------------------------------------------ *)
+(* The parser never reads past the end of its buffer: every B2F is preceded
+   by a length test that covers it, for every input. *)
+Lemma b2f_no_oob k : forall var bs, (k <= length bs)%nat -> b2f k var bs <> B2Oob.
+Proof.
+  induction k as [|k IH]; intros var bs Hl; [discriminate|].
+  destruct bs as [|ch tl]; [cbn [length] in Hl; lia|]. rewrite b2f_S.
+  destruct (is_dig ch); [|discriminate]. apply IH. cbn [length] in Hl. lia.
+Qed.
+
+Lemma b2f_rest_len k : forall var bs v rest,
+  b2f k var bs = B2Ok v rest -> length bs = (k + length rest)%nat.
+Proof.
+  induction k as [|k IH]; intros var bs v rest H.
+  - cbn [b2f] in H. inversion H; subst. reflexivity.
+  - destruct bs as [|ch tl]; [discriminate|]. rewrite b2f_S in H.
+    destruct (is_dig ch); [|discriminate]. apply IH in H. cbn [length]. lia.
+Qed.
+
+Lemma gt_finish_no_oob f g o lg : gt_finish f g o lg <> GtOob.
+Proof.
+  unfold gt_finish.
+  destruct ((12 <? g_mon f) || (g_mon f <? 1) || (31 <? g_mday f) || (g_mday f <? 1)
+            || (23 <? g_hour f) || (60 <? g_sec f)); [discriminate|].
+  match goal with |- (if ?c then _ else _) <> _ => destruct c; discriminate end.
+Qed.
+
+Lemma gt_offset_no_oob f c tl lg : gt_offset f (c :: tl) lg <> GtOob.
+Proof.
+  unfold gt_offset. destruct (zlen (c :: tl) <? 3) eqn:E; [discriminate|].
+  assert (Hl : (2 <= length tl)%nat) by (unfold zlen in E; cbn [length] in E; lia).
+  destruct (b2f 2 0 tl) as [h rest| |] eqn:Eb; [|discriminate|exact (False_ind _ (b2f_no_oob 2 0 tl Hl Eb))].
+  destruct (zlen rest =? 2) eqn:E2.
+  - assert (Hr : (2 <= length rest)%nat) by (unfold zlen in E2; lia).
+    destruct (b2f 2 0 rest) as [m r2| |] eqn:Eb2; [apply gt_finish_no_oob|discriminate|].
+    exact (False_ind _ (b2f_no_oob 2 0 rest Hr Eb2)).
+  - destruct rest; [apply gt_finish_no_oob|discriminate].
+Qed.
+
+Lemma gt_tail_no_oob f bs lg : gt_tail f bs lg <> GtOob.
+Proof.
+  unfold gt_tail. destruct bs as [|c tl]; [apply gt_finish_no_oob|].
+  destruct ((c =? 43) || (c =? 45)); [apply gt_offset_no_oob|].
+  destruct (c =? 90); [apply gt_finish_no_oob|discriminate].
+Qed.
+
+Lemma gt_frac_no_oob f bs lg : gt_frac f bs lg <> GtOob.
+Proof.
+  unfold gt_frac. destruct bs as [|c tl]; [apply gt_finish_no_oob|].
+  destruct ((c =? 44) || (c =? 46)); [|apply gt_tail_no_oob].
+  destruct (frac_digits_loop tl 0 0) as [[fv fd] rest]. apply gt_tail_no_oob.
+Qed.
+
+Lemma gt_two_no_oob f bs lg set next :
+  (forall f' r, next f' r <> GtOob) -> gt_two f bs lg set next <> GtOob.
+Proof.
+  intros Hn. unfold gt_two. destruct bs as [|c tl]; [apply gt_finish_no_oob|].
+  destruct (is_dig c).
+  - destruct tl as [|c2 tl2]; [discriminate|].
+    destruct (b2f 1 (c - 48) (c2 :: tl2)) as [v rest| |] eqn:Eb; [apply Hn|discriminate|].
+    assert (Hl : (1 <= length (c2 :: tl2))%nat) by (cbn [length]; lia).
+    exact (False_ind _ (b2f_no_oob 1 _ _ Hl Eb)).
+  - destruct ((c =? 43) || (c =? 45)); [apply gt_offset_no_oob|].
+    destruct (c =? 90); [apply gt_finish_no_oob|discriminate].
+Qed.
+
+Theorem gt_no_oob bs lg :
+  GT2time_frac bs lg <> GtOob /\ GT2time bs lg <> GtOob /\ UT2time bs lg <> GtOob.
+Proof.
+  assert (H : forall bs, GT2time_frac bs lg <> GtOob).
+  { clear bs. intros bs. unfold GT2time_frac. destruct (zlen bs <? 10) eqn:E; [discriminate|].
+    assert (Hl : (10 <= length bs)%nat) by (unfold zlen in E; lia).
+    destruct (b2f 4 0 bs) as [y r1| |] eqn:E1; [|discriminate|exact (False_ind _ (b2f_no_oob 4 0 bs ltac:(lia) E1))].
+    apply b2f_rest_len in E1.
+    destruct (b2f 2 0 r1) as [mo r2| |] eqn:E2; [|discriminate|exact (False_ind _ (b2f_no_oob 2 0 r1 ltac:(lia) E2))].
+    apply b2f_rest_len in E2.
+    destruct (b2f 2 0 r2) as [d r3| |] eqn:E3; [|discriminate|exact (False_ind _ (b2f_no_oob 2 0 r2 ltac:(lia) E3))].
+    apply b2f_rest_len in E3.
+    destruct (b2f 2 0 r3) as [h r4| |] eqn:E4; [|discriminate|exact (False_ind _ (b2f_no_oob 2 0 r3 ltac:(lia) E4))].
+    apply gt_two_no_oob. intros f5 r5. apply gt_two_no_oob. intros f6 r6. apply gt_frac_no_oob. }
+  assert (H0 : forall bs, GT2time bs lg <> GtOob).
+  { intros b. unfold GT2time. specialize (H b). destruct (GT2time_frac b lg); try discriminate. congruence. }
+  split; [apply H|]. split; [apply H0|].
+  unfold UT2time. destruct ((zlen bs <? 11) || (22 <=? zlen bs)); [discriminate|apply H0].
+Qed.
+
+(* ------------------------------------------------------------------ *)
+(* Fractions of a second, reading side: a forced-GMT text carrying up to nine
+   fraction digits is read back as t with exactly those digits. *)
+Lemma GT2time_frac_prefix t tail lg : t_min <= t < t_max ->
+  GT2time_frac (gt_body (gmtime t) ++ tail) lg
+  = gt_frac (mkGtf (tm_year (gmtime t) + 1900) (tm_mon (gmtime t) + 1) (tm_mday (gmtime t))
+                   (tm_hour (gmtime t)) (tm_min (gmtime t)) (tm_sec (gmtime t)) 0 0) tail lg.
+Proof.
+  intros Ht.
+  pose proof (gmtime_ranges t) as Hr. cbv zeta in Hr.
+  assert (Hy : 0 <= tm_year (gmtime t) + 1900 <= 9999).
+  { apply gmtime_year. unfold t_min, t_max in Ht.
+    change (days_from_civil 0 1 1) with (-719528). change (days_from_civil (9999 + 1) 1 1) with 2932897. lia. }
+  destruct (gt_body_spec t Ht) as [_ Hlen].
+  remember (gmtime t) as g eqn:Hg. clear Hg.
+  destruct Hr as (Hs & Hmi & Hh & Hd & Hmo & _).
+  unfold GT2time_frac.
+  assert (Hz : zlen (gt_body g ++ tail) = 14 + zlen tail).
+  { unfold zlen. rewrite app_length, Hlen. lia. }
+  pose proof (zlen_nonneg tail) as Hnn.
+  destruct (zlen (gt_body g ++ tail) <? 10) eqn:E; [lia|].
+  unfold gt_body. rewrite <- !app_assoc.
+  rewrite b2f_field by (try lia; change (10 ^ Z.of_nat 4) with 10000; lia).
+  rewrite b2f_field by (try lia; change (10 ^ Z.of_nat 2) with 100; lia).
+  rewrite b2f_field by (try lia; change (10 ^ Z.of_nat 2) with 100; lia).
+  rewrite b2f_field by (try lia; change (10 ^ Z.of_nat 2) with 100; lia).
+  rewrite gt_two_field by lia. rewrite gt_two_field by lia.
+  reflexivity.
+Qed.
+
+Lemma frac_digits_loop_digits ds : forall fv fd rest,
+  digits_ok ds -> stops rest -> 0 <= fv -> (fv + 1) * 10 ^ zlen ds <= 1000000000 ->
+  frac_digits_loop (ds ++ rest) fv fd = (fv * 10 ^ zlen ds + num ds, fd + zlen ds, rest).
+Proof.
+  induction ds as [|c tl IH]; intros fv fd rest Hd Hst Hfv Hb.
+  - cbn [app num]. unfold zlen; cbn [length Z.of_nat]. rewrite Z.pow_0_r.
+    replace (fv * 1 + 0) with fv by lia. replace (fd + 0) with fd by lia.
+    destruct rest as [|c rest']; [reflexivity|]. cbn [frac_digits_loop].
+    cbn [stops] in Hst. change (is_dig c) with (is_digit c). rewrite Hst. reflexivity.
+  - inversion Hd as [|? ? Hc Htl]; subst. cbn [app frac_digits_loop].
+    change (is_dig c) with (is_digit c). rewrite Hc.
+    rewrite pow10_cons in *. pose proof (pow10_pos tl) as HP. set (P := 10 ^ zlen tl) in *.
+    assert (Hdr : 0 <= c - 48 <= 9) by (unfold is_digit in Hc; lia).
+    assert (Hlt : fv < int_max_div10) by (unfold int_max_div10; nia).
+    destruct (fv <? int_max_div10) eqn:E; [|lia].
+    rewrite IH; [|assumption|assumption|lia|fold P; nia].
+    fold P. cbn [num]. fold P. rewrite zlen_cons. f_equal. f_equal; lia.
+Qed.
+
+Theorem gt_frac_read t fds lg : t_min <= t < t_max -> t <> -1 ->
+  digits_ok fds -> zlen fds <= 9 ->
+  GT2time_frac (gt_body (gmtime t) ++ 46 :: fds ++ [90]) lg = GtOk t (num fds) (zlen fds).
+Proof.
+  intros Ht Hne Hd Hl. rewrite GT2time_frac_prefix by exact Ht.
+  unfold gt_frac. change ((46 =? 44) || (46 =? 46)) with true. cbv iota.
+  assert (Hb : (0 + 1) * 10 ^ zlen fds <= 1000000000).
+  { change 1000000000 with (10 ^ 9). rewrite Z.mul_1_l.
+    apply Z.pow_le_mono_r; [lia|exact Hl]. }
+  rewrite (frac_digits_loop_digits fds 0 0 [90] Hd); [|reflexivity|lia|exact Hb].
+  rewrite Z.mul_0_l, !Z.add_0_l.
+  unfold gt_tail. change ((90 =? 43) || (90 =? 45)) with false. change (90 =? 90) with true. cbv iota.
+  unfold set_frac. cbn [g_year g_mon g_mday g_hour g_min g_sec].
+  apply gt_finish_gmtime. exact Hne.
+Qed.
